@@ -371,6 +371,46 @@ add('C18', 'third-pass-without-prefixcount', RTF, "    # Perform third loop thro
 add('C19', 'reader-encoding-remapped', TFI, "        self.encoding = encoding\n        self.filename = filename", "        if encoding.lower() == 'utf-8':\n            encoding = 'utf-8-sig'\n        self.encoding = encoding\n        self.filename = filename", 'fire', 'C19.R5')
 add('C20', 'terminal-set-validated', ERF, "        program_info['terminal_set'] = [x.upper() for x in args.terminal_set.split(',')]", "        program_info['terminal_set'] = [x.upper() for x in args.terminal_set.split(',') if x.upper() in 'ADOKXY']", 'fire', 'C20.R6')
 
+# ---- rules added after round 3 ---------------------------------------------------------------------------------
+add('C01', 'restore-appends-through-lambda', PQF, "            self.insert_queue\n            )", "            lambda pt_item: self.p_queue.append(QueueItem(pt_item))\n            )", 'fire', 'C01.R2')
+add('C06', 'identify-multi-memoised (result extended in place)', MWD, "    def _identify_multi(self, alpha_string):", "    @functools.lru_cache(maxsize=None)\n    def _identify_multi(self, alpha_string):", 'fire', 'C06.R8')
+add('C05', 'identify-multi-memoised (result extended in place)', MWD, "    def _identify_multi(self, alpha_string):", "    @functools.lru_cache(maxsize=None)\n    def _identify_multi(self, alpha_string):", 'fire', 'C05.R13')
+add('C06', 'get-count-memoised (immutable result)', MWD, "    def _get_count(self, alpha_string):", "    @functools.lru_cache(maxsize=None)\n    def _get_count(self, alpha_string):", 'silent')
+add('C06', 'no-omen-error-falls-through', RTF, [('            print("Exiting without saving grammar")\n            return False\n', '            print("Saving without Markov")\n'), ("        if program_info['coverage'] == 0:\n            pcfg_parser.count_base_structures.clear()", "        elif program_info['coverage'] == 0:\n            pcfg_parser.count_base_structures.clear()")], None, 'fire', 'C06.R4')
+add('C08', 'ruleset-uuid-name-based', CFG_, 'config.set(section, "uuid", str(uuid.uuid4()))', 'config.set(section, "uuid", str(uuid.uuid5(uuid.NAMESPACE_URL, program_info[\'training_file\'])))', 'fire', 'C08.R12')
+add('C06', 'ruleset-uuid-name-based (still deterministic)', CFG_, 'config.set(section, "uuid", str(uuid.uuid4()))', 'config.set(section, "uuid", str(uuid.uuid5(uuid.NAMESPACE_URL, program_info[\'training_file\'])))', 'silent')
+add('C08', 'ruleset-uuid1 (still fresh)', CFG_, 'config.set(section, "uuid", str(uuid.uuid4()))', 'config.set(section, "uuid", str(uuid.uuid1()))', 'silent')
+add('C11', 'scorer-loader-prunes-by-level', OSCF, "                    # Save the level\n                    self.ip[line[1]] = level", "                    if level <= self.max_omen_level:\n                        self.ip[line[1]] = level", 'fire', 'C11.R10')
+add('C11', 'min-length-min-instead-of-max', 'lib_trainer/omen/alphabet_lookup.py', "        self.min_length = min_length\n\n        # Min length can't be less than ngram\n        if self.min_length < ngram:\n            self.min_length = ngram", "        self.min_length = min(min_length, ngram)", 'fire', 'C11.R1')
+add('C18', 'min-length-min-instead-of-max', 'lib_trainer/omen/alphabet_lookup.py', "        self.min_length = min_length\n\n        # Min length can't be less than ngram\n        if self.min_length < ngram:\n            self.min_length = ngram", "        self.min_length = min(min_length, ngram)", 'fire', 'C18.R7')
+add('*', 'min-length-as-max-call', 'lib_trainer/omen/alphabet_lookup.py', "        self.min_length = min_length\n\n        # Min length can't be less than ngram\n        if self.min_length < ngram:\n            self.min_length = ngram", "        self.min_length = max(min_length, ngram)", 'silent')
+MASKLOOP = "        i=0\n        while i < len(replacement):"
+add('C13', 'mask-insertion-fixed-range', GIO, [(MASKLOOP, "        for i in range(len(replacement)):"), ("                replacement.insert(i+1,'C' + len_str)\n\n            i += 1\n", "                replacement.insert(i+1,'C' + len_str)\n")], None, 'fire', 'C13.R10')
+add('C15', 'omen-ip-lists-via-set', OIOF, [("            grammar[name][level] = []\n\n    try:", "            grammar[name][level] = set()\n\n    try:"), ("                    grammar[name][level].append(line[1])", "                    grammar[name][level].add(line[1])"), ("    except Exception as msg:\n        print(f\"Exception: {msg}\", file=sys.stderr)\n        raise\n\n\ndef _load_length(", "    except Exception as msg:\n        print(f\"Exception: {msg}\", file=sys.stderr)\n        raise\n    if name == 'ip':\n        for level in grammar[name]:\n            grammar[name][level] = list(grammar[name][level])\n\n\ndef _load_length(")], None, 'fire', 'C15.R8')
+add('C15', 'dead-end-ip-deleted-while-generating', MCF_, "            # Check to see if there is a IP option for the current level\n            size = len(ip[level])", "            while index < len(ip[level]) and ip[level][index] not in self.grammar['cp']:\n                del ip[level][index]\n            size = len(ip[level])", 'fire', 'C15.R7')
+add('C10', 'dead-end-ip-deleted-while-generating', MCF_, "            # Check to see if there is a IP option for the current level\n            size = len(ip[level])", "            while index < len(ip[level]) and ip[level][index] not in self.grammar['cp']:\n                del ip[level][index]\n            size = len(ip[level])", 'fire', 'C10.R6')
+FILL = "        if length == 1:\n            cp_index, cp_level = self._find_cp(ip, target_level, target_level)"
+add('C10', 'budget-above-max-level-refused', GSF, FILL, "        if target_level > self.max_level:\n            return None\n" + FILL, 'fire', 'C10.R7')
+add('C18', 'budget-above-max-level-refused', GSF, FILL, "        if target_level > self.max_level:\n            return None\n" + FILL, 'fire', 'C18.R8')
+add('*', 'negative-budget-refused-early', GSF, FILL, "        if target_level < 0:\n            return None\n" + FILL, 'silent')
+add('C10', 'guess-prefix-cached', GSF, [("            self.parse_tree[-1][2] += 1\n            return self._format_guess()", "            self.parse_tree[-1][2] += 1\n            return self.guess_base + self.cp[last_item[0]][last_item[1]][last_item[2]]"), ("        guess = self.ip\n        for item in self.parse_tree:", "        guess = self.ip\n        self.guess_base = guess\n        for item in self.parse_tree:")], None, 'fire', 'C10.R8')
+add('C14', 'terminals-cache-on-disk', GIO, "    if not _load_terminals(ruleset_info, grammar, base_directory, config, skip_case):\n        raise Exception", "    if not _load_terminals(ruleset_info, grammar, base_directory, config, skip_case):\n        raise Exception\n    with open(os.path.join(base_directory, 'terminals.cache'), 'wb') as cache:\n        pickle.dump(grammar, cache)", 'fire', 'C14.R11')
+add('C16', 'terminals-cache-on-disk', GIO, "    if not _load_terminals(ruleset_info, grammar, base_directory, config, skip_case):\n        raise Exception", "    if not _load_terminals(ruleset_info, grammar, base_directory, config, skip_case):\n        raise Exception\n    with open(os.path.join(base_directory, 'terminals.cache'), 'wb') as cache:\n        pickle.dump(grammar, cache)", 'fire', 'C16.R7')
+PRINTG = "        if not self.debug:\n            try:\n                print(guess)"
+add('C16', 'overlong-guess-not-written', PGF, PRINTG, "        if len(guess) > 256:\n            return\n\n" + PRINTG, 'fire', 'C16.R8')
+add('C04', 'overlong-guess-not-written', PGF, PRINTG, "        if len(guess) > 256:\n            return\n\n" + PRINTG, 'fire', 'C04.R12')
+add('C09', 'overlong-guess-not-written', PGF, PRINTG, "        if len(guess) > 256:\n            return\n\n" + PRINTG, 'fire', 'C09.R5')
+add('C14', 'seeding-skips-out-of-range-probability', PGF, "        for item in self.base:\n            pt_item = {", "        for item in self.base:\n            if not 0.0 < item['prob'] <= 1.0:\n                continue\n            pt_item = {", 'fire', 'C14.R10')
+add('C05', 'prince-tally-merges-alpha-in-place', 'lib_trainer/prince_metrics.py', "    for item in section_list:\n", "    elements = section_list\n    if len(elements) > 1 and elements[0][1][0] == 'A' and elements[1][1][0] == 'A':\n        elements[0:2] = [(elements[0][0] + elements[1][0], 'A' + str(len(elements[0][0] + elements[1][0])))]\n    for item in section_list:\n", 'fire', 'C05.R14')
+add('C05', 'jcuken-number-row-shifted', KB, "        'name': 'jcuken',\n\n        'row1': ['1', '2',", "        'name': 'jcuken',\n\n        'row1': ['ё', '1', '2',", 'fire', 'C05.R15')
+add('C05', 'prince-tally-over-a-copy', 'lib_trainer/prince_metrics.py', "    for item in section_list:\n", "    elements = list(section_list)\n    elements.reverse()\n    for item in elements:\n", 'silent')
+
+IPHEAD = "        level = self.cur_ip[0]\n        index = self.cur_ip[1] + 1\n\n        ip = self.grammar['ip']\n\n        # Loop through all the valid levels left\n        while level <= self.max_level:\n"
+IPTAIL = "            level += 1\n            index = 0\n            if level > self.max_level:\n                return False\n            elif level > working_target:\n                return False\n"
+add('C10', 'ip-cursor-range-one-short', MCF_, [(IPHEAD, "        index = self.cur_ip[1] + 1\n\n        ip = self.grammar['ip']\n\n        for level in range(self.cur_ip[0], min(working_target + 1, self.max_level)):\n"), (IPTAIL, "            index = 0\n\n        return False\n")], None, 'fire', 'C10.R9')
+add('C18', 'ip-cursor-range-one-short', MCF_, [(IPHEAD, "        index = self.cur_ip[1] + 1\n\n        ip = self.grammar['ip']\n\n        for level in range(self.cur_ip[0], min(working_target + 1, self.max_level)):\n"), (IPTAIL, "            index = 0\n\n        return False\n")], None, 'fire', 'C18.R9')
+add('*', 'ip-cursor-as-inclusive-range', MCF_, [(IPHEAD, "        index = self.cur_ip[1] + 1\n\n        ip = self.grammar['ip']\n\n        for level in range(self.cur_ip[0], min(working_target, self.max_level) + 1):\n"), (IPTAIL, "            index = 0\n\n        return False\n")], None, 'silent')
+
 # ---- behaviour-preserving edits: ALL properties must stay silent ('*') --------------------------------------------
 add('*', 'stderr-trace-in-next', PQF, "        queue_item = heapq.heappop(self.p_queue)\n", "        queue_item = heapq.heappop(self.p_queue)\n        if False:\n            print('popped', file=sys.stderr)\n", 'silent')
 add('*', 'find-prob-local-renamed', PGF, "        prob = base_prob\n\n        for item in pt:\n            pt_type = item[0]\n            index = item[1]\n            prob *= self.grammar[pt_type][index]['prob']\n\n        return prob", "        p = base_prob\n\n        for item in pt:\n            pt_type = item[0]\n            index = item[1]\n            p *= self.grammar[pt_type][index]['prob']\n\n        return p", 'silent')
